@@ -482,6 +482,10 @@ def run(tier):
                       timeout=3000, heap="6g")
         _model(ck, res, name)
     ck.set("exhaustive", True)
+    ck.set("exhaustive_scope", "every TLC configuration is enumerated completely; the terms of depth <= 1 (136) and the "
+           "shared-operand graphs are covered completely, the 36864 terms of depth 2 by a seeded sample (graph replay, "
+           "recorded histories) in the quick tier and completely (model checking without terminate, one recorded "
+           "history each) in the thorough tier")
 
     # 2. every transition of the state graphs replayed on real conditions
     _dump_and_replay(ck, binary, "dump-d1", D1_IDS, 7, mode1, walks1)
